@@ -40,7 +40,7 @@ def _write_replay(pid, cname, oname, payload):
 def run_property(pid, args, contracts, seed):
     t_start = time.time()
     tier = args.tier
-    sel = [c for c in contracts.values() if pid in c.props]
+    sel = [c for c in contracts.values() if pid in c.props and not ("thorough-only" in c.tags and tier != "thorough")]
     if args.contract:
         sel = [c for c in sel if fnmatch.fnmatch(c.name, args.contract)]
     kf = _cli.load_known_findings()
